@@ -3474,6 +3474,11 @@ func (ts *TokenStore) authRenew(ctx context.Context, req *logical.Request, d *fr
 
 	req.Auth.Period = role.TokenPeriod
 	req.Auth.ExplicitMaxTTL = role.TokenExplicitMaxTTL
+	// A token created with its own, smaller explicit max TTL stays bound by
+	// it, like at creation time where the lesser of the two values was used.
+	if te.ExplicitMaxTTL > 0 && (req.Auth.ExplicitMaxTTL == 0 || te.ExplicitMaxTTL < req.Auth.ExplicitMaxTTL) {
+		req.Auth.ExplicitMaxTTL = te.ExplicitMaxTTL
+	}
 	return &logical.Response{Auth: req.Auth}, nil
 }
 
